@@ -10,6 +10,9 @@ pub enum Tok {
     Match(u16, u16),
     /// raw literal/length symbol 0..=287 and optional raw distance symbol, for invalid-stream construction
     RawSym(u16),
+    /// raw bits (value, count <= 16) written as they are, for invalid-stream construction (e.g. what follows a
+    /// length symbol in a block that has no distance code)
+    Bits(u16, u8),
 }
 
 #[derive(Clone, Debug, PartialEq, Eq)]
@@ -137,6 +140,7 @@ fn emit_tokens(w: &mut BitW, toks: &[Tok], ll_lens: &[u8], d_lens: &[u8]) {
         match *t {
             Tok::Lit(b) => put_ll(w, b as usize),
             Tok::RawSym(s) => put_ll(w, s as usize),
+            Tok::Bits(v, n) => w.put(v as u32, n as usize),
             Tok::Match(len, dist) => {
                 let (ls, le, lv) = len_sym(len);
                 put_ll(w, ls as usize);
@@ -231,6 +235,7 @@ fn auto_lengths(toks: &[Tok]) -> (Vec<u8>, Vec<u8>) {
         match *t {
             Tok::Lit(b) => lf[b as usize] += 1,
             Tok::RawSym(s) => lf[s as usize] += 1,
+            Tok::Bits(..) => {}
             Tok::Match(l, d) => {
                 lf[len_sym(l).0 as usize] += 1;
                 df[dist_sym(d).0 as usize] += 1;
@@ -371,6 +376,7 @@ pub fn expected(plans: &[Plan], dict: &[u8]) -> Option<Vec<u8>> {
                         return None;
                     }
                 }
+                Tok::Bits(..) => return None,
                 Tok::Match(len, dist) => {
                     let dist = dist as usize;
                     if dist > dict.len() + out.len() {
